@@ -207,14 +207,20 @@ class SimFS:
         self.journal.append(('chmod', i, mode & 0o7777))
 
     # -- data operations ----------------------------------------------------------------
+    def alloc_fd(self):
+        """POSIX: the lowest-numbered descriptor that is not open (so a closed number is handed out again at once)."""
+        fd = 10
+        while fd in self.fds:
+            fd += 1
+        return fd
+
     def open(self, path, flags, mode=0o777):
         path = self.abspath(path)
         self.namecheck(path)
         if path in self.dirs:
             if flags & (_os.O_WRONLY | _os.O_RDWR):
                 raise IsADirectoryError(_errno.EISDIR, 'Is a directory', path)
-            fd = self.next_fd
-            self.next_fd += 1
+            fd = self.alloc_fd()
             self.fds[fd] = OpenFile(self.DIR_INO, flags)
             return fd
         if path in self.symlinks:
@@ -235,8 +241,7 @@ class SimFS:
             if not flags & _os.O_CREAT:
                 raise FileNotFoundError(_errno.ENOENT, 'No such file or directory', path)
             ino = self.create(path, mode)
-        fd = self.next_fd
-        self.next_fd += 1
+        fd = self.alloc_fd()
         self.fds[fd] = OpenFile(ino.ino, flags)
         ino.nopen += 1
         return fd
@@ -978,8 +983,7 @@ class SimOS:
     def dup(self, fd):
         sim = self._sim
         of = sim.fs._of(fd)
-        nfd = sim.fs.next_fd
-        sim.fs.next_fd += 1
+        nfd = sim.fs.alloc_fd()
         sim.fs.fds[nfd] = of            # shares the open file description (offset) like dup(2)
         sim.fs.inodes[of.ino].nopen += 1
         return nfd
